@@ -341,6 +341,7 @@ func (pe *PolicyEngine) insertNamespace(ns *corev1.Namespace) error {
 		return err
 	}
 	pe.namespacesMap[nsObj.Name] = nsObj
+	pe.cache.purge() // cached results may depend on the (updated) labels of the namespace
 	return nil
 }
 
@@ -432,6 +433,10 @@ func (pe *PolicyEngine) insertPod(pod *corev1.Pod) error {
 		return err
 	}
 	podStr := types.NamespacedName{Namespace: podObj.Namespace, Name: podObj.Name}
+	if _, isUpdate := pe.podsMap[podStr.String()]; isUpdate {
+		// cached results are keyed by the pod's owner and labels only; its ports or owner may have changed
+		pe.cache.purge()
+	}
 	pe.podsMap[podStr.String()] = podObj
 	// update cache with new pod associated to to its owner
 	pe.cache.addPod(podObj, podStr.String())
@@ -499,6 +504,7 @@ func (pe *PolicyEngine) insertAdminNetworkPolicy(anp *apisv1a.AdminNetworkPolicy
 	sort.SliceStable(pe.sortedAdminNetpols, func(i, j int) bool {
 		return pe.sortedAdminNetpols[i].Spec.Priority < pe.sortedAdminNetpols[j].Spec.Priority
 	})
+	pe.cache.purge()
 	return nil
 }
 
@@ -516,11 +522,13 @@ func (pe *PolicyEngine) insertBaselineAdminNetworkPolicy(banp *apisv1a.BaselineA
 		return errors.New(netpolerrors.BANPNameAssertion)
 	}
 	pe.baselineAdminNetpol = (*k8s.BaselineAdminNetworkPolicy)(banp)
+	pe.cache.purge()
 	return nil
 }
 
 func (pe *PolicyEngine) deleteNamespace(ns *corev1.Namespace) error {
 	delete(pe.namespacesMap, ns.Name)
+	pe.cache.purge()
 	return nil
 }
 
@@ -581,6 +589,7 @@ func (pe *PolicyEngine) deleteNetworkPolicy(np *netv1.NetworkPolicy) error {
 }
 
 func (pe *PolicyEngine) deleteAdminNetworkPolicy(anp *apisv1a.AdminNetworkPolicy) error {
+	pe.cache.purge()
 	delete(pe.adminNetpolsMap, anp.Name)
 	// delete anp from the pe.sortedAdminNetpols list
 	for i, item := range pe.sortedAdminNetpols {
@@ -594,6 +603,7 @@ func (pe *PolicyEngine) deleteAdminNetworkPolicy(anp *apisv1a.AdminNetworkPolicy
 }
 
 func (pe *PolicyEngine) deleteBaselineAdminNetworkPolicy(banp *apisv1a.BaselineAdminNetworkPolicy) error {
+	pe.cache.purge()
 	if pe.baselineAdminNetpol != nil && pe.baselineAdminNetpol.Name == banp.Name { // if this is the banp used in pe delete it
 		// @TBD : should keep this if? no other banps are in the resources (illegal)
 		pe.baselineAdminNetpol = nil
